@@ -499,6 +499,21 @@ def _run_main(repo: Repo, ctx) -> None:
                    f'{k.split(".")[-1]} (value_to_json_value treats all '
                    f'ScalarType uniformly via to_json)', fn.loc,
                    sample='handled')
+    # the fifth sibling: the renderer of CONFIGURE statements (what DESCRIBE
+    # and dumps show) turns every stored value into an EdgeQL constant
+    cap = repo.func('edb.schema.utils.const_ast_from_python')
+    ctx.saw(cap)
+    handled = set()
+    for t in ast.walk(cap.node):
+        if isinstance(t, ast.If):
+            handled.update(_isinst_classes(repo, cap.module, t.test))
+    for k in kinds:
+        ok = any(h in repo.mro(k) and h != scal for h in handled)
+        ctx.ob('C19.R5', f'const_ast_from_python:kind={k.split(".")[-1]}', ok,
+               f'const_ast_from_python has no case for config scalar kind '
+               f'{k.split(".")[-1]}: to_edgeql() of a stored setting of that '
+               f'type raises, so DESCRIBE CONFIG / a dump cannot render the '
+               f'configuration at all', cap.loc, sample='handled')
     # every concrete leaf resolves to one of the handled kinds
     for q in leaves:
         ok = any(k in repo.mro(q) for k in kinds)
